@@ -451,9 +451,10 @@ def judge(model, mapper: ClassInfo, n, fn, kinds, allow_zero_result=False,
 
 def _setup(model, mapper, n, fn, kinds, hooks, tuple_len=2):
     """-> (interp, mapper object, expr, fields, positions, extras, kw)"""
-    if n.legacy and n.name not in ("Polynomial", "Rational"):
+    if n.legacy and n.name not in ("Polynomial", "Rational", "MultiVector"):
         raise AnalysisError("legacy node class: not modelled by the judge")
     poly = n.name == "Polynomial"
+    mv = n.name == "MultiVector"
     if len(fn.args.args) < 2:
         raise AnalysisError("handler signature")
     me = fn.args.args[0].arg
@@ -474,6 +475,12 @@ def _setup(model, mapper, n, fn, kinds, hooks, tuple_len=2):
         fields.update(base=fields["Base"], data=fields["Data"], unit=1,
                       var_less=None)
         slots = [fields["Base"], c0, c1]
+    elif mv:
+        # a multivector: blade bit pattern -> coefficient (the children), and
+        # the space it lives in (data)
+        c1_, c2_ = Tok("data[1]"), FalsyTok("data[6]")
+        fields = {"data": {1: c1_, 6: c2_}, "space": Data("space")}
+        slots = [c1_, c2_]
     else:
         fields = _make(n, kinds, tuple_len)
         slots = []
